@@ -7,9 +7,10 @@ import shutil
 import common
 from common import hx, nums
 
-LEAN_MODULES = ["Pff.Props.C07"]
+LEAN_MODULES = ["Pff.Props.C07", "Pff.Props.Path"]
 PROP_MODULE = "Pff.Props.C07"
-THEOREMS = ["Pff.Merge.C07_walk_sorted", "Pff.Merge.C07_align", "Pff.Merge.C07_dup", "Pff.Merge.C07_restores"]
+THEOREMS = ["Pff.Merge.C07_walk_sorted", "Pff.Merge.C07_align", "Pff.Merge.C07_dup", "Pff.Merge.C07_restores",
+            "Pff.Path.PATH_relpath_posix", "Pff.Path.PATH_abspath_good"]
 MODELLED = [("pyFileFixity/replication_repair.py", "synchronize_files"), ("pyFileFixity/replication_repair.py", "sort_group"),
             ("pyFileFixity/replication_repair.py", "sort_dict_of_paths"), ("pyFileFixity/lib/aux_funcs.py", "recwalk")]
 TRUSTED_BASE = [
@@ -237,6 +238,14 @@ def run(oc, tier, seed, model_available, escalate):
             oc.distinct.add(lines[-1])
         if idx % max(1, len(cases) // 4) == 0:
             oc.sample({"request": lines[-1][:400], "impl_reply": impl[-1][:300]})
+    # ---- path layer: the repo's fullpath / path2unix / recwalk / relpath_posix and the os.path functions under them vs the Lean model
+    # (Pff.Path), and the relocation statement on the real functions
+    import path_x
+    pl, pi, pbad = path_x.cases(rng, (400 if tier == "quick" else 6000) * (2 if escalate else 1), common.scratch(), oc)
+    lines += pl
+    impl += pi
+    for b_ in pbad[:3]:
+        oc.violations.append({"input": {k: v for k, v in b_.items() if k != "what"}, "what": b_["what"]})
     shutil.rmtree(d, ignore_errors=True)
     if model_available:
         model, err = common.run_driver(lines)
